@@ -854,13 +854,17 @@ def _explore_child(spec_path):
                         open(os.path.join(wd, n), 'wb').write(data)
             return wd
 
-        def fn_for(i, t):
+        def cfg_for(i, t):
             c = {'op': 'effects_' + t['routine'], 'check': t.get('check', True), 'zone': 'absent' if t.get('zone', True) else 'none',
                  'exports': t.get('exports', 0)}
+            paths = {'decoy': 'dec%d.pdb' % i, 'ref': 'ref.pdb', 'zone': pair['zone_name'] if t.get('zone', True) else None,
+                     'exportdir': 'exp%d' % i, 'out1': 'pairs%d.pckl' % i}
+            return c, paths
+
+        def fn_for(i, t):
+            c, paths = cfg_for(i, t)
 
             def f():
-                paths = {'decoy': 'dec%d.pdb' % i, 'ref': 'ref.pdb', 'zone': pair['zone_name'] if t.get('zone', True) else None,
-                         'exportdir': 'exp%d' % i, 'out1': 'pairs%d.pckl' % i}
                 with warnings.catch_warnings():
                     warnings.simplefilter('ignore')
                     return call_routine(c, paths)
@@ -931,8 +935,9 @@ def _explore_child(spec_path):
                 # the model's prediction for this interleaving: global order of visible events
                 per_task = []
                 for i in range(len(tasks)):
-                    roles = {os.path.join(wd, 'dec%d.pdb' % i): 'decoy%d' % i, os.path.join(wd, 'ref.pdb'): 'ref',
-                             os.path.join(wd, pair['zone_name']): 'zone'}
+                    ci, pi = cfg_for(i, tasks[i])
+                    roles = role_map(ci, pi, wd)
+                    roles = {k3: (v3 + str(i) if v3 in ('decoy', 'out1', 'out2') else v3) for k3, v3 in roles.items()}
                     tr = canon_trace(s.events[i], roles, wd, os.path.join(wd, pair['zone_name']), {os.path.join(wd, k3) for k3 in before})
                     tr = [[x if x != 'tmp' else 'tmp%d' % i for x in e] for e in tr]
                     per_task.append(tr)
@@ -972,7 +977,7 @@ def _explore_child(spec_path):
                     n_ok += 1
                 if len(report['model_lines']) < spec['max_model_lines']:
                     report['model_lines'].append({'line': {'op': 'sched_run', 'zone': zone_state,
-                                                           'tasks': [{'routine': 'effects_' + t['routine'], 'check': t.get('check', True), 'zone': t.get('zone', True)} for t in tasks],
+                                                           'tasks': [{'routine': 'effects_' + t['routine'], 'check': t.get('check', True), 'zone': t.get('zone', True), 'exports': t.get('exports', 0)} for t in tasks],
                                                            'sched': s.visible_order},
                                                   'observed': s.per_task})
             report['pairs'].append({'tasks': [t['routine'] for t in tasks], 'zone_state': zone_state, 'schedules': len(runs) + len(extra),
